@@ -166,3 +166,20 @@ PROPS["C11"]["diverge"] = lambda l: l.startswith("DIVERGE poll")
 PROPS["C10"]["diverge"] = lambda l: l.startswith("DIVERGE new") or l.startswith("DIVERGE init")
 PROPS["C19"]["diverge"] = lambda l: l.startswith("DIVERGE poll_state") or l.startswith("DIVERGE read") or l.startswith("DIVERGE poll_requests")
 PROPS["C13"]["diverge"] = lambda l: "flush" in l or l.startswith("DIVERGE new") or l.startswith("DIVERGE fs") or l.startswith("DIVERGE fault") or l.startswith("DIVERGE crash")
+
+
+def lookup_shards(tier, seed, search=False):
+    k, n = (4, 300) if tier == "quick" else (16, 3000)
+    return [Shard("lookup", ["-seed", str(s), "-n", str(n)], driver="lookup", binary="storetrace") for s in seeds(seed, k)]
+
+
+PROPS["C16"] = dict(
+    shards=lambda tier, seed, search=False: store_shards(tier, seed, search) + lookup_shards(tier, seed, search),
+    trusted=STORE_TRUST,
+    assumptions=["singleflight: one flight per key at a time, every waiter gets its result", "the client returns when its context ends",
+                 "which waiter wins a single-flight race is the scheduler's choice: model and code are compared only where every flight's owner is determined; the monitors apply to all cases"],
+    rule=(STORE_RULE + "; plus concurrent LookupSecret scenarios under virtual time: 1-5 callers of one unknown name with start times 0..6 min, contexts {background, deadline 1 s/1 min/6 min, "
+          "cancelled after 0.5 s/2 s/30 s/7 min} and a service script per request {answer after 50 ms/2 s/10 min, fail after 20 ms/1 s, hang}; every context is cancelled by the harness at "
+          "70 min so that non-termination shows as a late return; a case is (callers, requests, handle obtained?, deterministic?)"),
+    diverge=lambda l: l.startswith("DIVERGE lookup") or l.startswith("DIVERGE handle"),
+)
